@@ -304,6 +304,19 @@ func ruleC12Errors(c *Checker) {
 			if !(u.Returned || u.PassedOn) {
 				exc = p.errorIdiom(fn, ci, ev, u.Compared)
 			}
+			// tested against nil: every path from the non-nil edge reports, unless it passes an enumerated filter
+			if len(u.Compared) > 0 && !isFunc(o, "fmt", "Errorf") && !isFunc(o, "errors", "New") && p.errorIdiom(fn, ci, ev, u.Compared) == "" {
+				swallowed := ""
+				for _, e := range u.Compared {
+					if w := p.unreportedPath(fn, e, ev, cn); w != "" {
+						swallowed = w
+					}
+				}
+				if swallowed != "" {
+					c.fail(R, name, construct, pos, "the error of "+cn+" is tested, but a path from its non-nil edge "+swallowed+" without reporting it (no error return, diagnostic or panic on the way, and no enumerated filter): a failure here can go unnoticed")
+					continue
+				}
+			}
 			switch {
 			case u.Returned || u.PassedOn:
 				c.pass(R, name, construct, pos, "the error flows to a return value, a wrapper or a callback")
@@ -1348,4 +1361,301 @@ func ruleC12DiagCopy(c *Checker) {
 		})
 	}
 	c.pass(R, "-", "stores inspected", "-", fmt.Sprintf("%d store(s) in sourcebundle resolved to their alias roots; none not reported writes through an interface implementation's storage", n))
+}
+
+// ---- every path from the non-nil edge of an error test reports ----
+
+// errorFilters: (producer of the error, classification test) pairs whose
+// matching edge may go on without reporting, one line of reason each.
+var errorFilters = map[string]map[string]string{
+	"os.Lstat":    {"os.IsNotExist": "the entry is absent: that is the answer, not a fault"},
+	"os.Stat":     {"os.IsNotExist": "the entry is absent: that is the answer, not a fault"},
+	"os.Open":     {"os.IsNotExist": "no such file: the caller falls back to defaults"},
+	"os.ReadFile": {"os.IsNotExist": "no such file: the caller falls back to defaults"},
+	"os.Remove":   {"os.IsNotExist": "already gone"},
+	"os.Create":   {"os.IsPermission": "an earlier read-only entry of the same name: retried after a transient chmod, and the retry's error is consumed"},
+	"os.Chmod":    {"os.IsNotExist": "restoring a recorded directory that is no longer there: nothing to restore (upstream's tolerance, kept)"},
+	"os.Chtimes":  {"os.IsNotExist": "restoring a recorded directory that is no longer there: nothing to restore (upstream's tolerance, kept)"},
+	"archive/tar.(Reader).Next": {"== io.EOF": "end of archive"},
+}
+
+// errFilterName classifies a branch condition as a test of one of the error
+// values: the filter's name and whether the filter matches on the true edge.
+func errFilterName(cond ssa.Value, evs map[ssa.Value]bool) (string, bool, bool) {
+	c, neg := stripNot(cond)
+	switch x := c.(type) {
+	case *ssa.Call:
+		o := calleeObj(x)
+		if o == nil || len(x.Call.Args) == 0 {
+			return "", false, false
+		}
+		if !evs[canon(x.Call.Args[0])] && !evs[x.Call.Args[0]] {
+			return "", false, false
+		}
+		if objPkgPath(o) == "os" && strings.HasPrefix(o.Name(), "Is") {
+			return "os." + o.Name(), !neg, true
+		}
+		if isFunc(o, "errors", "Is") || isFunc(o, "errors", "As") {
+			return "errors." + o.Name(), !neg, true
+		}
+	case *ssa.BinOp:
+		if x.Op != token.EQL && x.Op != token.NEQ {
+			return "", false, false
+		}
+		var other ssa.Value
+		switch {
+		case evs[canon(x.X)] || evs[x.X]:
+			other = x.Y
+		case evs[canon(x.Y)] || evs[x.Y]:
+			other = x.X
+		default:
+			return "", false, false
+		}
+		if isNilConst(other) {
+			return "", false, false
+		}
+		name := "== sentinel"
+		if ld, ok := canon(other).(*ssa.UnOp); ok {
+			if g, ok := ld.X.(*ssa.Global); ok {
+				name = "== " + g.Pkg.Pkg.Name() + "." + g.Name()
+			}
+		}
+		return name, (x.Op == token.EQL) != neg, true
+	}
+	return "", false, false
+}
+
+// unreportedPath: from the non-nil edge e of a test of the error ev (produced
+// by callee cn), is there a path that neither reports (non-nil error return,
+// panic, diagnostic, fresh error flowing to a return) nor passes an
+// enumerated filter, and ends in a success return or goes round a loop?
+// Returns a description of the offending path's end, or "".
+func (p *Prog) unreportedPath(fn *ssa.Function, e Edge, ev ssa.Value, cn string) string {
+	hasErrResult := false
+	res := fn.Signature.Results()
+	for i := 0; i < res.Len(); i++ {
+		if isErrorType(res.At(i).Type()) {
+			hasErrResult = true
+		}
+	}
+	if !hasErrResult && !isDiagnosticsTypeResult(fn) {
+		return "" // nothing to report through (callbacks, deferred closures): judged by the other clauses
+	}
+	// the error value and what it is copied into
+	evs := map[ssa.Value]bool{ev: true}
+	var grow func(v ssa.Value)
+	grow = func(v ssa.Value) {
+		refs := v.Referrers()
+		if refs == nil {
+			return
+		}
+		for _, r := range *refs {
+			switch x := r.(type) {
+			case *ssa.Phi:
+				// only a phi all of whose non-nil inputs are this error stands for it
+			case *ssa.Store:
+				if x.Val == v {
+					if al, ok := x.Addr.(*ssa.Alloc); ok {
+						for _, ld := range reachingLoads(x, al) {
+							if !evs[ld] {
+								evs[ld] = true
+								grow(ld)
+							}
+						}
+					}
+				}
+			case *ssa.MakeInterface:
+				if !evs[x] {
+					evs[x] = true
+					grow(x)
+				}
+			}
+		}
+	}
+	grow(ev)
+	type st struct {
+		b, from *ssa.BasicBlock
+	}
+	seen := map[st]bool{}
+	startHeads := map[*ssa.BasicBlock]bool{}
+	for _, b := range fn.Blocks {
+		if b.Dominates(e.From) && reaches(e.From, b) && b != e.From {
+			startHeads[b] = true // loop headers enclosing the test: reaching one again = next iteration
+		}
+	}
+	if reaches(e.To(), e.From) {
+		startHeads[e.From] = startHeads[e.From] || false
+	}
+	bad := ""
+	var dfs func(b, from *ssa.BasicBlock, depth int)
+	dfs = func(b, from *ssa.BasicBlock, depth int) {
+		if bad != "" || depth > 400 {
+			return
+		}
+		s := st{b, from}
+		if seen[s] {
+			return
+		}
+		seen[s] = true
+		if startHeads[b] {
+			bad = "goes on with the next iteration at " + p.Pos(firstPos(b))
+			return
+		}
+		for _, in := range b.Instrs {
+			switch x := in.(type) {
+			case *ssa.Return:
+				if hasErrResult && mayReturnNilErr(x) {
+					// a Diagnostics-returning function reports through its diagnostics
+					bad = "reaches the success return at " + p.Pos(x.Pos())
+				}
+				return
+			case *ssa.Panic:
+				return
+			case *ssa.Call:
+				if bi, ok := x.Call.Value.(*ssa.Builtin); ok && bi.Name() == "append" && isDiagnosticsType(x.Type()) {
+					return
+				}
+				if definitelyNonNilErr(x) && p.errorUses(fn, x).Returned {
+					return
+				}
+			}
+		}
+		ifi, ok := b.Instrs[len(b.Instrs)-1].(*ssa.If)
+		if !ok {
+			for _, sc := range b.Succs {
+				dfs(sc, b, depth+1)
+			}
+			return
+		}
+		// a later nil test of the same error (or of a phi that is this error on this path) is decided
+		if nn, isNil := errCheckEdges(fn, nil); false {
+			_, _ = nn, isNil
+		}
+		cnd, neg := stripNot(ifi.Cond)
+		if bo, ok := cnd.(*ssa.BinOp); ok && (bo.Op == token.NEQ || bo.Op == token.EQL) && (isNilConst(bo.X) || isNilConst(bo.Y)) {
+			v := bo.X
+			if isNilConst(bo.X) {
+				v = bo.Y
+			}
+			isEv := evs[v] || evs[canon(v)]
+			if ph, ok := v.(*ssa.Phi); ok && from != nil && ph.Block() == b {
+				for i, pr := range b.Preds {
+					if pr == from && (evs[ph.Edges[i]] || evs[canon(ph.Edges[i])]) {
+						isEv = true
+					}
+				}
+			}
+			if isEv {
+				nonNilOnTrue := (bo.Op == token.NEQ) != neg
+				if nonNilOnTrue {
+					dfs(b.Succs[0], b, depth+1)
+				} else {
+					dfs(b.Succs[1], b, depth+1)
+				}
+				return
+			}
+			// a remembered earlier error (another error-typed cell) being non-nil is as good as reporting
+			if isErrorType(v.Type()) {
+				nonNilOnTrue := (bo.Op == token.NEQ) != neg
+				if nonNilOnTrue {
+					dfs(b.Succs[1], b, depth+1)
+				} else {
+					dfs(b.Succs[0], b, depth+1)
+				}
+				return
+			}
+		}
+		if name, onTrue, ok := errFilterName(ifi.Cond, evs); ok {
+			matchSucc, otherSucc := 0, 1
+			if !onTrue {
+				matchSucc, otherSucc = 1, 0
+			}
+			if !p.filterAllowed(fn, ev, cn, name, 2) {
+				// the filter is not an enumerated one: going on over its matching edge swallows the error
+				dfs(b.Succs[matchSucc], b, depth+1)
+				if bad != "" {
+					bad = "is let through by " + name + " and " + bad
+				}
+			}
+			dfs(b.Succs[otherSucc], b, depth+1)
+			return
+		}
+		dfs(b.Succs[0], b, depth+1)
+		dfs(b.Succs[1], b, depth+1)
+	}
+	dfs(e.To(), e.From, 0)
+	return bad
+}
+
+func isDiagnosticsTypeResult(fn *ssa.Function) bool {
+	res := fn.Signature.Results()
+	for i := 0; i < res.Len(); i++ {
+		if isDiagnosticsType(res.At(i).Type()) {
+			return true
+		}
+	}
+	return false
+}
+
+
+// filterAllowed: the classification test may let the error through — the pair
+// (producer, filter) is enumerated, or the producer is a module helper every
+// error of which comes from producers for which it is (sentinels aside).
+func (p *Prog) filterAllowed(fn *ssa.Function, ev ssa.Value, cn, filter string, depth int) bool {
+	if _, ok := errorFilters[cn][filter]; ok {
+		return true
+	}
+	if depth == 0 {
+		return false
+	}
+	// the call that produced ev
+	var call *ssa.Call
+	switch x := ev.(type) {
+	case *ssa.Call:
+		call = x
+	case *ssa.Extract:
+		call, _ = x.Tuple.(*ssa.Call)
+	}
+	if call == nil {
+		return false
+	}
+	h := call.Common().StaticCallee()
+	if h == nil || !p.InModule(h) || len(h.Blocks) == 0 {
+		return false
+	}
+	res := h.Signature.Results()
+	idx := -1
+	for i := 0; i < res.Len(); i++ {
+		if isErrorType(res.At(i).Type()) {
+			idx = i
+		}
+	}
+	if idx < 0 {
+		return false
+	}
+	n := 0
+	for _, r := range returnsOf(h) {
+		for _, v := range returnValues(r, idx) {
+			if v == nil || isNilConst(v) {
+				continue
+			}
+			for _, l := range p.origins(v, 0) {
+				switch l.Kind {
+				case "global", "const", "zero":
+					// a sentinel of the helper's own: not matched by an os.Is… filter
+				case "call":
+					if l.Callee == nil {
+						return false
+					}
+					n++
+					if _, ok := errorFilters[fullName(l.Callee)][filter]; !ok {
+						return false
+					}
+				default:
+					return false
+				}
+			}
+		}
+	}
+	return n > 0
 }
